@@ -108,8 +108,8 @@ let dump_ok (o : opened) (file : string) (maxdata : BZ.t) (getsize : z) =
       let shape = List.map (fun d -> if d >= 0 && d < Array.length dims then big dims.(d).d_size else BZ.minus_one)
                     (List.map iz v.v_dimids) in
       let isrec = (match shape with s0 :: _ -> BZ.sign s0 = 0 | [] -> false) in
-      let bad = List.exists (fun s -> BZ.sign s < 0) shape || BZ.sign numrecs < 0 || esz = 0 in
       let lens = List.map (fun s -> if BZ.sign s = 0 then numrecs else s) shape in
+      let bad = List.exists (fun s -> BZ.sign s < 0) lens || esz = 0 in
       let cap = BZ.succ maxdata in
       let nel = List.fold_left (fun acc l -> let p = BZ.mul acc l in if BZ.gt p cap then cap else p) BZ.one lens in
       if bad || BZ.sign maxdata = 0 || BZ.gt nel (BZ.div maxdata (BZ.of_int (max esz 1))) then
@@ -136,6 +136,9 @@ let dump_ok (o : opened) (file : string) (maxdata : BZ.t) (getsize : z) =
       end) h.h_vars;
   Printf.printf "close 0\n"
 
+let file_cache : (string, string * z list) Hashtbl.t = Hashtbl.create 64
+let dec_cache : (string * string, opened option) Hashtbl.t = Hashtbl.create 64
+
 let witnesses = [
   "w_rndup_int", w_rndup_int; "w_attr_null", w_attr_null; "w_attrV_mul", w_attrV_mul;
   "w_attr_xlen", w_attr_xlen; "w_shape_product", w_shape_product; "w_var_calloc", w_var_calloc;
@@ -155,8 +158,11 @@ let () =
       let line = input_line ic in
       match String.split_on_char ' ' (String.trim line) with
       | [tag; chunk; mm; maxdata; path] ->
-          let file = read_file path in
-          let fl = zlist_of_string file in
+          let (file, fl) =
+            (match Hashtbl.find_opt file_cache path with
+             | Some x -> x
+             | None -> let f = read_file path in let x = (f, zlist_of_string f) in
+                       Hashtbl.replace file_cache path x; x) in
           let o = open_model (zs chunk) (zs mm) fl in
           Printf.printf "case %s\n" tag;
           (match o.out_res with
@@ -167,11 +173,18 @@ let () =
             (sz o.out_acct.ac_alloc) (sz o.out_acct.ac_maxreq) (sz o.out_acct.ac_nalloc);
           let fr = open_flat (zs mm) fl in
           Printf.printf "flat %s\n" (if fr = o.out_res then "same" else "diff");
-          (match decode fl with
-           | Some d ->
-               let v = c04_valid (zs mm) d in
-               Printf.printf "valid %d\n" (if v then 1 else 0);
-               if v then Printf.printf "expected %s\n" (if o.out_res = Ok (expected_open d) then "same" else "diff")
+          let dec =
+            (match Hashtbl.find_opt dec_cache (path, mm) with
+             | Some x -> x
+             | None ->
+                 let x = (match decode fl with
+                          | Some d -> if c04_valid (zs mm) d then Some (expected_open d) else None
+                          | None -> None) in
+                 Hashtbl.replace dec_cache (path, mm) x; x) in
+          (match dec with
+           | Some e ->
+               Printf.printf "valid 1\n";
+               Printf.printf "expected %s\n" (if o.out_res = Ok e then "same" else "diff")
            | None -> Printf.printf "valid 0\n");
           (match o.out_res with
            | Ok op ->
